@@ -51,6 +51,9 @@ inductive Fault
 abbrev Ext := Buf → Nat
 abbrev R := Except Fault
 
+/-- extents of the local arrays of a kernel: every local has `n` elements -/
+def constExt (n : Nat) : Ext := fun _ => n
+
 /-- a run is safe when it ends with a return code, not with a fault -/
 def Safe {α : Type} (r : R α) : Prop := ∃ x, r = .ok x
 
@@ -259,7 +262,7 @@ def var2h (e : Ext) (nvalvar nvalh nbsec rainfall hstart : Int) (sec : Nat → I
 def daysinmonth (month : Int) : R Int :=
   if month < 1 ∨ month > 12 then pure (-1)
   else do
-    acc (fun _ => 13) .daysInMonth month
+    acc (constExt 13) .daysInMonth month
     pure 0
 
 /-- `c_dateutils_dayofyear` -/
@@ -267,7 +270,7 @@ def dayofyear (month day : Int) : R Int :=
   if month < 1 ∨ month > 12 then pure (-1)
   else if day < 1 ∨ day > 31 then pure (-1)
   else do
-    acc (fun _ => 13) .dayOfYear month
+    acc (constExt 13) .dayOfYear month
     pure 0
 
 /-- `c_dateutils_add1month(date)`; `d k` = content of `date[k]` -/
@@ -430,7 +433,7 @@ def arShift (e le : Ext) (nparams : Int) : R Unit :=
 
 /-- `c_armodel_sim(nval, nparams, sim_mean, sim_ini, params, innov, outputs)` -/
 def armodelSim (e : Ext) (nval nparams : Int) (pnan : Nat → Bool) (badscalar : Bool) : R Int := do
-  let le : Ext := fun _ => arMax.toNat
+  let le : Ext := constExt 10
   let c ← arChecks e le nparams pnan badscalar
   match c with
   | none => pure 1
@@ -445,7 +448,7 @@ def armodelSim (e : Ext) (nval nparams : Int) (pnan : Nat → Bool) (badscalar :
 `xnan i` = `isnan(inputs[i]-sim_mean)` (then the value is rebuilt from `params[k]*prev[k]`) -/
 def armodelResidual (e : Ext) (nval nparams : Int) (pnan : Nat → Bool) (badscalar : Bool)
     (xnan : Nat → Bool) : R Int := do
-  let le : Ext := fun _ => arMax.toNat
+  let le : Ext := constExt 10
   let c ← arChecks e le nparams pnan badscalar
   match c with
   | none => pure 1
@@ -495,7 +498,7 @@ crps_decompos)`; the seven work arrays of `ncol+1` doubles are one local extent 
 `unsorted i j` = the sorting test of forecast `i` -/
 def crps (e : Ext) (nval ncol useW : Int) (unsorted : Nat → Nat → Bool) : R Int := do
   let n1 ← i32 (ncol + 1)
-  let le : Ext := fun _ => n1.toNat
+  let le : Ext := constExt n1.toNat
   forEach (fun j => acc le .work j) n1.toNat 0
   let r ← forLoop (fun i s => crpsRow e le ncol useW (unsorted i.toNat) i s) nval.toNat 0 ()
   match r with
@@ -539,7 +542,7 @@ def ensrank (e : Ext) (nval ncol : Int) (badeps : Bool) : R Int :=
   else if ncol ≤ 0 ∨ nval ≤ 0 then pure 1
   else do
     let n2 ← i32 (2 * ncol)
-    let le : Ext := fun _ => n2.toNat
+    let le : Ext := constExt n2.toNat
     let ninit := if nval < n2 then n2 else nval
     forEach (fun j => do
         if j < n2 then acc le .ensemb j else pure ()
@@ -679,7 +682,7 @@ def neighbours (e : Ext) (nrows ncols idx : Int) : R Int := do
   | some _ => pure 0
 
 /-- the local `long long neighbours[9]` of `c_upstream` / `c_downstream` -/
-def nbExt : Ext := fun _ => 9
+def nbExt : Ext := constExt 9
 
 /-- one cell of `c_upstream`, writing row `row` of `idxup`; `ok false` = the error return -/
 def upstream1 (e : Ext) (nrows ncols : Int) (code fdir : Nat → Int) (row idxcell : Int) : R Bool := do
@@ -758,7 +761,7 @@ def downstream (e : Ext) (nrows ncols nval : Int) (code fdir cells : Nat → Int
   | .inl _ => pure 0
 
 /-- extents of the one-element locals `idxdown[1]`, `idxup[1]`, `idxcell[1]` -/
-def oneExt : Ext := fun _ => 1
+def oneExt : Ext := constExt 1
 
 /-- the walk of `c_accumulate` from one cell: `while(accumulated_cells <= max_accumulated_cells)`;
 state = current `idxup[0]`; `inr (inl code)` = `return code`, `inr (inr ())` = `break` -/
